@@ -32,13 +32,13 @@ pub struct CrashCase {
 	pub only: Option<StopPoint>,
 }
 
-/// Scenario generator built from blocks. Three regimes make the interesting pipeline
+/// Scenario generator built from blocks. Four regimes make the interesting pipeline
 /// states common: 0 = free mix of single steps, 1 = "rotating" (every commit is logged and its
 /// log file flushed at once, enact/clean sprinkled in between, so several log files are
 /// pending and recycled out of order), 2 = "deep queue" (bursts of commits, then bursts of
 /// processing).
 pub fn crash_scenario(max_cols: usize, min_ops: usize, max_ops: usize, multi: bool, big: u32) -> impl Strategy<Value = Scenario> {
-	(mixed_cfg(max_cols, multi), 0u8..3).prop_flat_map(move |(cfg, regime)| {
+	(mixed_cfg(max_cols, multi), 0u8..4).prop_flat_map(move |(cfg, regime)| {
 		let commit = mixed_items(&cfg, 12, big, 6, 3).prop_map(Op::Commit);
 		let block: BoxedStrategy<Vec<Op>> = match regime {
 			0 => prop_oneof![
@@ -55,6 +55,15 @@ pub fn crash_scenario(max_cols: usize, min_ops: usize, max_ops: usize, multi: bo
 				3 => Just(vec![Op::C]),
 				1 => Just(vec![Op::F]),
 				1 => Just(vec![Op::R]),
+			]
+			.boxed(),
+			// 3 = "no cleanup": one log file per commit, enacted but never reclaimed, so that many
+			// consumed log files await cleanup when the handle is dropped / the crash happens
+			3 => prop_oneof![
+				10 => commit.clone().prop_map(|c| vec![c, Op::P, Op::F]),
+				2 => commit.prop_map(|c| vec![c, Op::P]),
+				7 => Just(vec![Op::E]),
+				1 => Just(vec![Op::F]),
 			]
 			.boxed(),
 			_ => prop_oneof![
